@@ -3,7 +3,7 @@ extern crate std;
 use super::*;
 use crate::context::Context;
 use crate::gc::Gc;
-use crate::collect_impl::verif_kani::{a, Rec};
+use crate::collect_impl::verif_kani::{a, same, Rec};
 #[kani::proof]
 #[kani::unwind(5)]
 fn k_collect_smallvec() {
@@ -15,7 +15,8 @@ fn k_collect_smallvec() {
         let mut i = 0; while i < n { v.push(g[i]); i += 1; }
         let mut r = Rec::new(); v.trace(&mut r);
         assert!(r.ns == n && r.nw == 0, "[trace] SmallVec: every element, inline (n <= 2) and spilled (n == 3)");
-        let mut i = 0; while i < n { assert!(r.s[i] == a(g[i])); i += 1; }
+        let exp = [a(g[0]), a(g[1]), a(g[2])];
+        assert!(same(&r, &exp[..n], &[]), "[trace] SmallVec: exactly its elements");
         assert!(<SmallVec<[Gc<'_, u8>; 2]> as Collect>::NEEDS_TRACE && !<SmallVec<[u8; 2]> as Collect>::NEEDS_TRACE);
         kani::cover!(v.spilled());
         core::mem::forget(v); core::mem::forget(cx);
